@@ -802,6 +802,22 @@ func (w *World) CheckDB() {
 	it := w.DB.NewIterator(nil, nil)
 	w.scanBoth("db", it, w.M.Sorted())
 	it.Release()
+	if w.Failed() {
+		return
+	}
+	// a second Release of that handle ("can be called multiple times") while another iterator is
+	// live must not touch the other one
+	it2 := w.DB.NewIterator(nil, nil)
+	it.Release()
+	want := w.M.Sorted()
+	ok := it2.First()
+	switch {
+	case it2.Error() != nil:
+		w.violate("db: iterator created after another one was released, then the other released again: error %v", it2.Error())
+	case ok != (len(want) > 0) || (ok && (string(it2.Key()) != want[0].K || string(it2.Value()) != want[0].V)):
+		w.violate("db: iterator created after another one was released, then the other released again: First() = %v at %q, model has %d pairs", ok, it2.Key(), len(want))
+	}
+	it2.Release()
 }
 
 // CheckViews compares every live snapshot, held iterator and open transaction with its model.
